@@ -83,6 +83,7 @@ class IxWalk:
         self.prog = prog
         self.fi = fi
         self.findings: List[Finding] = []
+        self.unique_inputs: List = []
         self.undecided = 0
         self.env: Dict[str, IV] = {}
         params = fi.params()
@@ -505,7 +506,7 @@ class IxWalk:
             if recv.kind in ("arr", "idx", "mask"):
                 if base in ("astype", "copy", "conj", "round"):
                     return IV(recv.kind, rows=recv.rows, dom=recv.dom, shp=recv.shp)
-                if base in ("squeeze", "flatten", "ravel"):
+                if base in ("squeeze", "flatten", "ravel") or (base == "reshape" and len(args) == 1 and const(args[0]) == -1):
                     return IV(recv.kind, rows=recv.rows, dom=recv.dom, shp="vec" if recv.shp in ("col", "vec") else None)
                 if base == "transpose":
                     # an (n,1) column transposed and indexed by [0] is the vector of its entries
@@ -563,6 +564,7 @@ class IxWalk:
                     return IV(av[0].kind, rows=av[0].rows, dom=av[0].dom, shp=av[0].shp if base not in ("squeeze", "expand_dims", "atleast_1d") else None)
                 return UNK
             if base == "unique" and av:
+                self.unique_inputs.append((e, rows_of(av[0])))
                 u = self.fresh("unique", e)
                 outs = [IV("arr", rows=u)]
                 for k in ("return_index", "return_inverse", "return_counts"):
